@@ -16,7 +16,8 @@ import StorageModel.Base.Bytes
                   at the first error — `fkDeleteCascadeConstraint.ProcessBeforeDelete`; which context
                   that nested call gets is `cascadeCtx`), a link set `peers` ↔ O (link collections take
                   a bare transaction: no context at all; deleting an owner unlinks it everywhere) and
-                  the system-entity constraint (registered after the fk constraint)
+                  the system-entity constraint (registered after the fk constraint) — on S, on C, or
+                  on both: `Reg`, a field of the state (the schema the database was opened with)
     C  child store of S: a sub-bucket of the parent's entity bucket holding `level`; `PersistEntity`
                   persists the parent part through `ctx.GetParentContext()`, which keeps `IsCreate`:
                   `C.Create` over an existing parent RE-RUNS `CreateBaseValues` on the parent bucket;
@@ -120,16 +121,40 @@ structure Ent (K N T : Type) where
   peers : List K
   deriving DecidableEq, Repr
 
+/-- **where the system-entity constraint is registered** — a parameter of the schema: on the parent
+    store S, on the child store C (through the `isSystem` symbol S grants it), on both, on neither -/
+structure Reg where
+  onS : Bool
+  onC : Bool
+  deriving DecidableEq, Repr
+
 structure St (K N T : Type) where
   ents : Map K (Ent K N T)
   /-- the ids present in store O -/
   owners : List K
+  /-- the schema the database was opened with; no operation changes it -/
+  reg : Reg
   deriving Repr
 
-def St.empty {K N T : Type} : St K N T := { ents := [], owners := [] }
+def St.empty {K N T : Type} (reg : Reg) : St K N T := { ents := [], owners := [], reg := reg }
 
 /-- `LoadBaseValues`: `bucket.GetBoolWithDefault(FieldIsSystemEntity, false)` -/
 def Ent.isSystem {K N T : Type} (e : Ent K N T) : Bool := e.flag.getD false
+
+/-- **which constraint lists an operation on this bucket runs through.**  S's constraints run on
+    every operation that touches the entity: operations through S use S's indexing context, and the
+    indexing context of C has S's as its `Parent`, processed first.  C's constraints run only when
+    the operation goes through C's indexing context: `C.Create` / `C.Update`; `S.Update` of an entity
+    WITH child data (`ChildStoreUpdateHandler.HandleUpdate` hands it to `C.Update`); `S.DeleteById` /
+    `C.DeleteById` of an entity WITH child data (`DeleteById` walks
+    `handler.GetStore().processDeleteConstraints`, which returns `nil, nil` when the child store has
+    no data for the id).  An operation through S on an entity without child data never reaches
+    C's constraints.  In every one of these cases "C's constraints run" coincides with "the bucket
+    has (after a create: now has) a child sub-bucket". -/
+def guarded {K N T : Type} (reg : Reg) (e : Ent K N T) : Bool := reg.onS || (reg.onC && e.level.isSome)
+
+/-- a system entity some registered constraint looks at -/
+def Ent.protectedBy {K N T : Type} (e : Ent K N T) (reg : Reg) : Bool := guarded reg e && e.isSystem
 
 /-- the in-memory entity handed to `Create` / `Update`: every field of `BaseExtEntity` (besides the
     id), the name and the owner -/
@@ -234,10 +259,11 @@ variable {K N T : Type} [DecidableEq K]
 def St.putEnt (s : St K N T) (id : K) (e : Ent K N T) : St K N T := { s with ents := s.ents.put id e }
 def St.delEnt (s : St K N T) (id : K) : St K N T := { s with ents := s.ents.del id }
 
-/-- `systemEntityConstraint.checkOperation`: the STORED flag, and the kind of context -/
+/-- `systemEntityConstraint.checkOperation` of whichever registered constraint the operation runs
+    through (`guarded`): the STORED flag, and the kind of context -/
 def refused (s : St K N T) (id : K) (sys : Bool) : Bool :=
   match s.ents.get id with
-  | some e => e.isSystem && !sys
+  | some e => e.protectedBy s.reg && !sys
   | none => false
 
 structure Out (K N T : Type) where
@@ -365,7 +391,7 @@ def step (s : St K N T) : Op K N T → Out K N T
       | some _ => { st := r.1, err := some .viaSysDelete }
       | none =>
         -- cleanupLinks, then the bucket goes
-        { st := { ents := unlinkAll r.1.ents id, owners := r.1.owners.filter (· ≠ id) } }
+        { st := { r.1 with ents := unlinkAll r.1.ents id, owners := r.1.owners.filter (· ≠ id) } }
     else { st := s, err := some .notFound }
   | .deleteWhere sys q =>
     let r := delMany sys s (matching s q)
@@ -419,9 +445,14 @@ structure SEnt (K N T : Type) where
 structure SSt (K N T : Type) where
   ents : Map K (SEnt K N T)
   owners : List K
+  reg : Reg
   deriving Repr
 
-def SSt.empty : SSt K N T := { ents := [], owners := [] }
+def SSt.empty (reg : Reg) : SSt K N T := { ents := [], owners := [], reg := reg }
+
+/-- the entities the property can be claimed for under a registration: system entities, and — when
+    the constraint is registered on the child store only — those of them that have child data -/
+def SEnt.protectedBy (e : SEnt K N T) (reg : Reg) : Bool := (reg.onS || (reg.onC && e.level.isSome)) && e.isSys
 
 inductive SRes (K N T : Type)
   | ok (s : SSt K N T)
@@ -435,7 +466,7 @@ def sownerOk (s : SSt K N T) : Option K → Bool
 /-- an ordinary context may not touch this id -/
 def srefused (s : SSt K N T) (sys : Bool) (id : K) : Bool :=
   match s.ents.get id with
-  | some e => e.isSys && !sys
+  | some e => e.protectedBy s.reg && !sys
   | none => false
 
 def snew (v : Vals K N T) (isSys : Bool) (lvl : Option N) : SEnt K N T :=
@@ -446,7 +477,7 @@ def snew (v : Vals K N T) (isSys : Bool) (lvl : Option N) : SEnt K N T :=
 
 def supdate (s : SSt K N T) (sys : Bool) (id : K) (v : Vals K N T) (sn st so : Bool) (lvl : Option N)
     (e : SEnt K N T) : SRes K N T :=
-  if e.isSys && !sys then .fail true
+  if e.protectedBy s.reg && !sys then .fail true
   else
     let o := if so then v.owner else e.owner
     if decide (o ≠ e.owner) && !sownerOk s o then .fail false
@@ -458,7 +489,7 @@ def supdate (s : SSt K N T) (sys : Bool) (id : K) (v : Vals K N T) (sn st so : B
 def sdelete (s : SSt K N T) (sys : Bool) (id : K) : SRes K N T :=
   match s.ents.get id with
   | none => .fail true
-  | some e => if e.isSys && !sys then .fail true else .ok { s with ents := s.ents.del id }
+  | some e => if e.protectedBy s.reg && !sys then .fail true else .ok { s with ents := s.ents.del id }
 
 /-- deleting a set of entities at once (cascade, DeleteWhere): refused as a whole — nothing is
     deleted — when an ordinary context would thereby delete a system entity -/
@@ -481,7 +512,7 @@ def smatching (s : SSt K N T) (q : Query K N) : List K := (s.ents.filter fun p =
 def sstep (s : SSt K N T) : Op K N T → SRes K N T
   | .create sys id blank v =>
     if blank || (s.ents.get id).isSome then .fail true
-    else if !sownerOk s v.owner || (v.flag && !sys) then .fail false
+    else if !sownerOk s v.owner || ((snew v v.flag none).protectedBy s.reg && !sys) then .fail false
     else .ok { s with ents := s.ents.put id (snew v v.flag none) }
   | .ccreate sys id blank v lvl =>
     if blank then .fail true
@@ -490,10 +521,10 @@ def sstep (s : SSt K N T) : Op K N T → SRes K N T
       if e.level.isSome then .fail true
       -- extending an existing entity re-creates its parent part: a system entity (and a create
       -- carrying the flag) needs a system context
-      else if !sownerOk s v.owner || ((e.isSys || v.flag) && !sys) then .fail false
+      else if !sownerOk s v.owner || ((snew v (e.isSys || v.flag) (some lvl)).protectedBy s.reg && !sys) then .fail false
       else .ok { s with ents := s.ents.put id (snew v (e.isSys || v.flag) (some lvl)) }
     | none =>
-      if !sownerOk s v.owner || (v.flag && !sys) then .fail false
+      if !sownerOk s v.owner || ((snew v v.flag (some lvl)).protectedBy s.reg && !sys) then .fail false
       else .ok { s with ents := s.ents.put id (snew v v.flag (some lvl)) }
   | .update sys id v sn st so =>
     match s.ents.get id with
